@@ -98,7 +98,15 @@ def _case_h1(rng, tier, n):
         method = rng.choice(["GET", "GET", "HEAD", "POST"])
         req = G.gen_request(rng, tag, version, tier, body_sizes=[0, 5, 2000], methods=[method])
         resp = gen_resp(rng, tag, tier, False, method)
-        by_tag[str(tag)] = resp_script(resp)
+        if rng.random() < 0.08:
+            # an application that announces and sends trailers whatever the protocol (sometimes to a client that says "TE: trailers", which
+            # HTTP/1.1 clients may): on HTTP/1.x they are not emitted - and the response is complete all the same
+            if rng.random() < 0.5:
+                req["headers"] = list(req["headers"]) + [(b"TE", b"trailers")]
+                req["ows"] = list(req.get("ows") or []) + [b" "]
+            by_tag[str(tag)] = resp_script(resp, [(b"x-trailer", b"v%d" % tag)] + ([(b"x-checksum", b"c")] if rng.random() < 0.4 else []))
+        else:
+            by_tag[str(tag)] = resp_script(resp)
         reqs.append(req)
         resps.append(resp)
         data = G.serialize_h1(req)
